@@ -182,6 +182,10 @@ func run(t *tape.Tape, cfg sim.Config, listen bool) (res sim.Result) {
 		r.subset = base
 		r.instSubset = []map[string]bool{mk(), mk(), nil}
 	}
+	if listen && cfg.Class == "all" && t.Chance(1, 3) {
+		r.perInstCompile = true
+		res.Stat("probe.one_compilation_per_instance_same_selection", 1)
+	}
 	r.setup([]*plan.Plan{pa, pa, pb}, []string{"a", "", "b"}, []int{-1, -1, 0})
 	defer r.rt.Close(r.ctx)
 	if t.Chance(1, 4) {
